@@ -85,21 +85,33 @@ func (sgi ShardGroupInfo) getShardsAndSeriesKeyForHintQuery(tagsGroup *influx.Po
 	sort.Sort(tagsGroup)
 	r := influx.Row{Name: mst.Name, Tags: *tagsGroup}
 	r.UnmarshalIndexKeys(nil)
-	r.UnmarshalShardKeyByTag(nil)
-	if len(ski.ShardKey) > 0 {
-		r.ShardKey = r.ShardKey[len(mst.Name)+1:]
+	// The shard of the series is computed the way the writer computes it: from the tags the shard key
+	// names (all tags when there is no shard key). If that is not possible every alive shard is read.
+	if ski == nil || r.UnmarshalShardKeyByTag(ski.ShardKey) != nil {
+		return sgi.genShardInfosByIndex(aliveShardIdxes), r.IndexKey
 	}
 	// Force the query to be broadcast
 	if sysconfig.GetEnableForceBroadcastQuery() == sysconfig.OnForceBroadcastQuery {
 		return sgi.genShardInfosByIndex(aliveShardIdxes), r.IndexKey
 	}
-	var shardIdxes []int
-	if mst.InitNumOfShards == 0 {
-		shardIdxes = aliveShardIdxes
+	var shard *ShardInfo
+	if ski.Type == RANGE {
+		shard = sgi.DestShard(string(r.ShardKey))
 	} else {
-		shardIdxes = mst.ShardIdexes[sgi.ID]
+		if len(ski.ShardKey) > 0 {
+			r.ShardKey = r.ShardKey[len(mst.Name)+1:]
+		}
+		var shardIdxes []int
+		if mst.InitNumOfShards == 0 {
+			shardIdxes = aliveShardIdxes
+		} else {
+			shardIdxes = mst.ShardIdexes[sgi.ID]
+		}
+		shard = sgi.ShardFor(HashID(r.ShardKey), shardIdxes)
 	}
-	shard := sgi.ShardFor(HashID(r.ShardKey), shardIdxes)
+	if shard == nil {
+		return sgi.genShardInfosByIndex(aliveShardIdxes), r.IndexKey
+	}
 	shards = append(shards, *shard)
 	return shards, r.IndexKey
 }
